@@ -193,7 +193,7 @@ fn record() -> BoxedStrategy<RDict> {
 }
 
 pub fn fcase(depth: u32) -> BoxedStrategy<FCase> {
-    let inj = prop::collection::vec((any::<u16>(), 0u8..12, any::<u16>()), 0..5);
+    let inj = prop::collection::vec((any::<u16>(), 0u8..15, any::<u16>()), 0..5);
     bx((filter_or(depth, true), prop::collection::vec(record(), 1..4), inj, prop::collection::vec((0usize..4, record()), 0..4), super::c04::choices()).prop_map(|(filter, mut records, inj, store, choices)| {
         // make comparisons land near their literal: derive tag values from the filter's own terms
         let mut cmps: Vec<(Vec<String>, RVal)> = vec![];
@@ -220,6 +220,23 @@ pub fn fcase(depth: u32) -> BoxedStrategy<FCase> {
                     9 => Some(RVal::num(f64::NAN)),
                     10 => Some(RVal::List(vec![RVal::num(f64::NAN), bump(lit, false)])),
                     11 => Some(RVal::num(if sel % 2 == 0 { f64::INFINITY } else { f64::NEG_INFINITY })),
+                    // the same value as far as `==` goes, but not the same value: a Ref with the same id and another (or no)
+                    // display name; for Numbers the same magnitude in a *sibling* unit (same dimension, scale and offset:
+                    // EUR / USD, hertz / per_second, hPa / mbar) or in no unit
+                    12 => match lit {
+                        RVal::Ref(id, dis) => Some(RVal::Ref(id.clone(), if dis.is_some() { None } else { Some("Display".into()) })),
+                        RVal::Num(b, Some(u)) => Some(RVal::Num(*b, crate::refimpl::units::sibling_of(u).or(Some(u.clone())))),
+                        other => Some(other.clone()),
+                    },
+                    13 => match lit {
+                        RVal::Ref(id, _) => Some(RVal::List(vec![RVal::Ref(id.clone(), Some("in a list".into())), RVal::Marker])),
+                        RVal::Num(b, u) => Some(RVal::Num(*b, if u.is_some() { None } else { Some(vec!["percent".into(), "%".into()]) })),
+                        other => Some(other.clone()),
+                    },
+                    14 => match lit {
+                        RVal::Ref(id, _) => Some(RVal::Ref(id.clone(), Some("zzz".into()))),
+                        other => Some(bump(other, sel % 2 == 0)),
+                    },
                     _ => Some(RVal::num(5.0)),
                 };
                 set_path(&mut records[r], p, v);
@@ -625,7 +642,7 @@ fn enumerate(ctx: &mut Ctx) {
 }
 
 pub fn run(ctx: &mut Ctx) {
-    ctx.rule("generated: (filter AST with every term kind, every literal kind the syntax admits, paths of 1-4 segments, and/or/paren nesting; 1-3 records whose tags are steered near the filter's literals: equal, just above, just below, other kind, missing, Null, NaN, +-INF, list containing / not containing it, nested dicts; a small ref store with cycles) - the libhaystack Filter is built from the AST through the public node fields (and also through text -> parser); oracle: a direct evaluator of the statement (Tri-valued: comparisons of Numbers with different units are left open and only counted); grids: filter_all returns exactly the accepted rows in order, filter the first; exhaustive slice: all filters of size <= 2 (and, for a reduced term set, size 3 in all four and/or/paren shapes) over names {id,dis,c}, literals {1, 2m, \"x\", true, @r}, all six operators against all 512 records over an 8-value universe (absent, 1, 2m, \"x\", true, @r, NaN, [1,\"x\"]), plus, per filter, all 512 records as the rows of one grid (filter_all = exactly the accepted rows in order, filter = the first); non-trivial: filter has a comparison, `not` or `->` and some path resolves; distinct by (filter text, record)");
+    ctx.rule("generated: (filter AST with every term kind, every literal kind the syntax admits, paths of 1-4 segments, and/or/paren nesting; 1-3 records whose tags are steered near the filter's literals: equal, equal-but-for-the-display-name (Refs), same magnitude in a sibling unit (EUR/USD, Hz/per_second) or no unit, just above, just below, other kind, missing, Null, NaN, +-INF, list containing / not containing it, nested dicts; a small ref store with cycles) - the libhaystack Filter is built from the AST through the public node fields (and also through text -> parser); oracle: a direct evaluator of the statement (Tri-valued: comparisons of Numbers with different units are left open and only counted); grids: filter_all returns exactly the accepted rows in order, filter the first; exhaustive slice: all filters of size <= 2 (and, for a reduced term set, size 3 in all four and/or/paren shapes) over names {id,dis,c}, literals {1, 2m, \"x\", true, @r}, all six operators against all 512 records over an 8-value universe (absent, 1, 2m, \"x\", true, @r, NaN, [1,\"x\"]), plus, per filter, all 512 records as the rows of one grid (filter_all = exactly the accepted rows in order, filter = the first); non-trivial: filter has a comparison, `not` or `->` and some path resolves; distinct by (filter text, record)");
     ctx.assume("Ref equality ignores the display name and timestamps compare by instant (Haystack semantics); ^symbol / relationship terms are decided by C13 and evaluate to false against the empty default namespace");
     enumerate(ctx);
     let depth = ctx.tier.pick(2, 3) as u32;
